@@ -128,6 +128,8 @@ RightCtx(op) == CMin(BinLevel(op) + 1)
 (* text) start with "@":                                                   *)
 (*   @n    the next node (in preorder, nodes of NoPosKinds excluded)       *)
 (*         starts at the next token that is written                        *)
+(*   @(! @)! a pair of parentheses that NeedsParens requires (always       *)
+(*         written; marked so that near-miss texts can drop such a pair)   *)
 (*   @( @) a pair of parentheses that may be written or not                *)
 (*   @,    a trailing comma that may be written or not                     *)
 (*   @:    the second colon of a slice without stride, may be written      *)
@@ -157,8 +159,8 @@ RECURSIVE R(_, _), Own(_, _), RParam(_), RArg(_), RClause(_), RStmt(_, _), RBloc
 \* an expression at a position with context ctx
 R(t, ctx) ==
   IF NeedsParens(t, ctx)
-  THEN <<"(", MARK>> \o Own(t, CExpr)
-       \o (IF t.k = "tuple" /\ Len(t.c) >= 2 THEN <<"@,">> ELSE <<>>) \o <<")">>
+  THEN <<"@(!", MARK>> \o Own(t, CExpr)
+       \o (IF t.k = "tuple" /\ Len(t.c) >= 2 THEN <<"@,">> ELSE <<>>) \o <<"@)!">>
   ELSE <<"@(", MARK>> \o Own(t, ctx) \o <<"@)">>
 
 \* the node's own tokens (its children rendered in their contexts)
@@ -268,7 +270,9 @@ RenderExpr(t) == R(t, CExpr)            \* what ParseExpr accepts: an Expression
 RenderFile(f) == RStmts(f.c)
 
 \* the real tokens of a rendering with minimal parentheses and none of the optional items
-Minimal(toks) == SelectSeq(toks, LAMBDA x : x \notin {"@n", "@(", "@)", "@,", "@:"})
+Minimal(toks) ==
+  LET kept == SelectSeq(toks, LAMBDA x : x \notin {"@n", "@(", "@)", "@,", "@:"})
+  IN [j \in 1..Len(kept) |-> IF kept[j] = "@(!" THEN "(" ELSE IF kept[j] = "@)!" THEN ")" ELSE kept[j]]
 
 \* well-formedness of trees that the renderer (and the generator) rely on
 RECURSIVE WF(_)
@@ -306,6 +310,10 @@ Keywords == {"and", "break", "continue", "def", "elif", "else", "for", "if", "in
 Punct == {"+", "-", "*", "/", "//", "%", "=", "+=", "-=", "*=", "/=", "//=", "%=", "==", "!=",
           "^", "<", ">", "<<", ">>", "&", "|", "^=", "<=", ">=", "<<=", ">>=", "&=", "|=",
           ".", ",", ";", ":", "~", "**", "(", ")", "[", "]", "{", "}"}
+\* "may not be used as identifiers although they do not appear in the grammar" (spec.md; the
+\* Go implementation documents `assert` as permitted, so it is not listed)
+Reserved == {"as", "async", "await", "class", "del", "except", "finally", "from", "global", "import",
+             "is", "nonlocal", "raise", "try", "with", "yield"}
 Classes == {"ident", "int", "float", "string", "bytes", "newline", "indent", "outdent"}
 Terminals == Keywords \cup Punct \cup Classes
 
@@ -486,6 +494,7 @@ StrPool   == {"'s'", "\"d\"", "r's'", "'''t'''", "'m'", "'d'"}
 BytesPool == {"b's'", "rb's'"}
 TokClass(tok) ==
   CASE tok \in Keywords \cup Punct -> tok
+    [] tok \in Reserved -> "reserved"          \* a token that occurs in no production
     [] tok \in IntPool -> "int"
     [] tok \in FloatPool -> "float"
     [] tok \in StrPool -> "string"
@@ -501,6 +510,8 @@ Classify(toks) ==
   IF toks = <<>> THEN <<>>
   ELSE LET x == Head(toks) IN
        IF x \in {"@n", "@(", "@)", "@,", "@:"} THEN Classify(Tail(toks))
+       ELSE IF x = "@(!" THEN <<"(">> \o Classify(Tail(toks))
+       ELSE IF x = "@)!" THEN <<")">> \o Classify(Tail(toks))
        ELSE IF x \in {"@ind", "@ind?"} THEN <<"newline", "indent">> \o Classify(Tail(toks))
        ELSE <<TokClass(x)>> \o Classify(Tail(toks))
 =============================================================================
